@@ -18,7 +18,6 @@ import (
 	"context"
 	"fmt"
 	"io"
-	"reflect"
 	"sync"
 
 	"github.com/google/badwolf/bql/planner/tracer"
@@ -607,10 +606,9 @@ func tripleToRow(t *triple.Triple, cls *semantic.GraphClause) (table.Row, error)
 		if !ok {
 			return true
 		}
-		if reflect.DeepEqual(c, v) {
-			return true
-		}
-		return false
+		// Values are compared by kind and value; time anchors as instants,
+		// regardless of the zone they are expressed in.
+		return sameCellValue(c, v)
 	}
 
 	// Subject related bindings.
